@@ -1,15 +1,8 @@
-# Per-property driver configuration: Go package, jobs (binary flavour, sections, shard counts), caps.
-PROPS = {
-    "C12": {
-        "pkg": "c12",
-        "jobs": [
-            {"flavour": "plain", "sections": "enum,enum3,seq,script", "shards": 8, "shards_thorough": 16},
-            {"flavour": "race", "sections": "conc", "shards": 4, "shards_thorough": 8, "gomaxprocs": 4, "nondeterministic": True},
-        ],
-        "assumptions": [
-            "the reference is Go's built-in map[string]int applied to the same operation sequence",
-            "porcupine v1.3.0 decides linearizability of the recorded concurrent histories; the Go race detector and scheduler sample interleavings, they do not enumerate them",
-            "Range/Length issued while other goroutines run are held only to the documented sync.Map contract, not to atomic-snapshot semantics",
-        ],
-    },
-}
+# Per-property driver configuration is one JSON file per property under checks.d/:
+#   pkg, jobs[{flavour, sections, shards, shards_thorough, gomaxprocs, nondeterministic, ulimit_v_kb}],
+#   timeout_quick, timeout_thorough, probe_timeout, assumptions[], manifest{technique, level, design_ref, note}
+import glob, json, os
+_ROOT = os.path.dirname(os.path.abspath(__file__))
+PROPS = {}
+for _p in sorted(glob.glob(os.path.join(_ROOT, "checks.d", "C*.json"))):
+    PROPS[os.path.basename(_p)[:-5]] = json.load(open(_p, encoding="utf-8"))
